@@ -36,6 +36,7 @@ def run(rep, tier, seed):
                 fails.append('%s parser: field #%d is %s, RFC layout gives %s (got %d fields, expected %d)' % (
                     stack, k, str(got[k])[:80] if k < len(got) else 'missing', str(want_fields[k])[:80] if k < len(want_fields) else 'nothing', len(got), len(want_fields)))
         kinds = 'coap' if 'options' in st else ('udp-raw-port-%d' % st['dport'] if 'raw' in st else 'sctp')
+        pc.bytes_case(b, stack, bits, stack)
         b.add('%s:%s' % (stack, kinds), pc.model_line(stack, bits), out, pc.parse_model, fails,
               dict(layer='parser', op='parse', stack=stack, bits=bits), key=(stack, bits))
         if 'options' in st:
